@@ -475,6 +475,101 @@ def run_print_line(part, w, lines, cuts, case):
         _viol(part, w, key, 'wrote lines %r, read %r' % ([l[:20] for l in lines], [g[:20] for g in got]), case)
 
 
+# records written with WRITE# and lines written with PRINT# in one file, read back with INPUT# and LINE INPUT#
+
+MIX_UNITS = [
+    ('W', [('n', b'12'), ('s', b'title')]),
+    ('W', [('s', b'a b ')]),
+    ('W', [('n', b'-3')]),
+    ('W', [('s', b''), ('n', b'7')]),
+    ('P', b'   indented'),
+    ('P', b'plain'),
+    ('P', b' x '),
+    ('P', b''),
+    ('P', b'  '),
+]
+
+
+def run_mixed(part, w, units, case):
+    s = w.s
+    w.reset()
+    r = w.run(b'OPEN "%s" FOR OUTPUT AS 1' % FNAME.encode())
+    if r.exc is not None or r.err is not None:
+        _viol(part, w, 'open/output-failed', repr(r), case)
+        return
+    for ui, (kind, body) in enumerate(units):
+        if kind == 'W':
+            args = []
+            for ii, (t, v) in enumerate(body):
+                if t == 's':
+                    s.set_variable('W%d%d$' % (ui, ii), v)
+                    args.append(b'W%d%d$' % (ui, ii))
+                else:
+                    args.append(v)
+            st = b'WRITE#1,' + b','.join(args)
+        else:
+            s.set_variable('W%d0$' % ui, body)
+            st = b'PRINT#1,W%d0$' % ui
+        r = w.run(st)
+        if r.exc is not None or r.err is not None:
+            _viol(part, w, 'mixed/write-failed', '%r: %r' % (st, r), case)
+            return
+    w.must(b'CLOSE 1')
+    host = w.host()
+    w.must(b'OPEN "%s" FOR INPUT AS 1' % FNAME.encode())
+    for ui, (kind, body) in enumerate(units):
+        w.must(b'E9%=EOF(1)')
+        if s.get_variable('E9%') != 0:
+            _viol(part, w, 'mixed/eof-true-before-unit', 'EOF before unit %d of %r; file %r' % (ui, units, host), case)
+            return
+        if kind == 'W':
+            names = [(b'R%d$' % ii if t == 's' else b'R%d%%' % ii) for ii, (t, v) in enumerate(body)]
+            st = b'INPUT#1,' + b','.join(names)
+        else:
+            names = [b'R0$']
+            st = b'LINE INPUT#1,R0$'
+        r = w.run(st)
+        if r.exc is not None:
+            _viol(part, w, 'mixed/host-exception/' + H.exc_key(r.exc), '%r: %r' % (st, r.exc), case)
+            return
+        if r.err is not None:
+            _viol(part, w, 'mixed/read-error-%s' % r.err, '%r failed; file %r' % (st, host), case)
+            return
+        if kind == 'W':
+            got = [bytes(s.get_variable(nm.decode())) if nm.endswith(b'$') else s.get_variable(nm.decode()) for nm in names]
+            exp = [v if t == 's' else int(v) for t, v in body]
+        else:
+            got = [bytes(s.get_variable('R0$'))]
+            exp = [body]
+        if got != exp:
+            prevk = units[ui - 1][0] if ui else '-'
+            _viol(part, w, 'mixed/%s-after-%s/differs' % ({'W': 'input', 'P': 'line-input'}[kind], {'W': 'input', 'P': 'line-input', '-': 'open'}[prevk]),
+                  'unit %d of %r read back as %r; file %r' % (ui, units, got, host), case)
+            return
+    w.must(b'E9%=EOF(1)')
+    if s.get_variable('E9%') == 0:
+        _viol(part, w, 'mixed/eof-false-after-last-unit', 'units %r; file %r' % (units, host), case)
+    w.must(b'CLOSE 1')
+
+
+def work_mixed(shard):
+    part = Partial()
+    sl, cases = shard
+    w = Worker(sl)
+    try:
+        for idxs in cases:
+            units = [MIX_UNITS[i] for i in idxs]
+            case = {'units': list(idxs), 'sl': sl}
+            run_mixed(part, w, units, case)
+            part.n += 1
+            part.traces += 1
+            part.classes.add('mixed|%s|%s' % (''.join(u[0] for u in units), 'sl' if sl else 'nl'))
+        part.sample({'units': list(cases[0]), 'sl': sl})
+    finally:
+        w.done()
+    return part
+
+
 def work_print_line(shard):
     part = Partial()
     sl, cases = shard
@@ -570,6 +665,11 @@ def legs(ctx):
                    work_print_line, exhaustive=True,
                    bound='all %d cases: line sequences of length <=%d over %d lines x all cuts into <=3 OPEN '
                          'sessions x soft_linefeed off/on' % (len(lcases) * 2, maxlen, len(LINES))))
+    mcases = [idxs for k in range(1, maxlen + 2) for idxs in product(range(len(MIX_UNITS)), repeat=k)]
+    out.append(Leg('mixed', [(sl, ch) for sl in (False, True) for ch in chunked(mcases, 100)], work_mixed, exhaustive=True,
+                   bound='all %d sequences of 1..%d units over %d (4 WRITE# records, 5 PRINT# lines incl. leading / trailing blanks and '
+                         'empty) in one file, read back with INPUT# / LINE INPUT# in the same order, x soft_linefeed off/on' % (
+                             len(mcases) * 2, maxlen + 1, len(MIX_UNITS))))
     lbyts = [b for b in range(1, 256) if b not in (0x0a, 0x0d, 0x1a)]
     out.append(Leg('line-bytes', [(sl, ch) for sl in (False, True) for ch in chunked(lbyts, 8)],
                    work_line_bytes, exhaustive=True,
@@ -582,6 +682,9 @@ def replay(ctx, leg, case):
     sl = bool(case['sl'])
     w = Worker(sl)
     try:
+        if 'units' in case:
+            run_mixed(part, w, [MIX_UNITS[i] for i in case['units']], case)
+            return part
         if leg == 'write-input':
             items = [ALL_ITEMS[i] for i in case['items']]
             for it in items:
